@@ -75,6 +75,8 @@ def write_twins(tmp, module):
         if k == "expr":
             body = body.strip() + ";"
         body, _ = extract.expand_macro_calls(body, text, mask)
+        if t.get("rules"):
+            body = extract.apply_rules(body, t["rules"], {})
         by_impl.setdefault(t.get("impl"), []).append("    pub(crate) fn %s%s {\n%s\n        %s\n    }" % (t["name"], t["sig"], body, t["tail"]))
     for impl, fns in by_impl.items():
         out.append("impl %s {" % impl)
